@@ -306,9 +306,9 @@ fn run(run: &mut Run) {
     run.assume("TOML is not in the property; the markup text itself is not compared");
     run.assume("the harness enables no serde_json / rust_decimal / serde_yaml feature that the repository does not enable itself");
     run.min_nontrivial = 300;
-    run.explore("gds-markup", run.tier.pick(40_000, 300_000), 1800, &gds_case);
-    run.explore("lef-markup", run.tier.pick(25_000, 200_000), 2600, &lef_case);
-    run.explore("gds-file-markup-file", run.tier.pick(10_000, 80_000), 1800, &markup_case);
+    run.explore("gds-markup", run.tier.pick(80_000, 800_000), 1800, &gds_case);
+    run.explore("lef-markup", run.tier.pick(50_000, 500_000), 2600, &lef_case);
+    run.explore("gds-file-markup-file", run.tier.pick(20_000, 200_000), 1800, &markup_case);
     run.explore("save-histories", run.tier.pick(10_000, 100_000), 4000, &overwrite_case);
     run.explore("scalars", run.tier.pick(30_000, 500_000), 120, &scalar_case);
 }
